@@ -159,8 +159,9 @@ spec = json.load(sys.stdin)
 KIND = spec.get('world', 'cpl')
 ARRAYS = bool(spec.get('arrays', False))
 star = build_world('55cnc')
-LAYERED = KIND.startswith('layered')
-OBLIQ = KIND in ('cpl_obl', 'ctl_obl', 'layered')
+DUAL = KIND.startswith('dual')
+LAYERED = KIND.startswith('layered') or KIND == 'dual_layered'
+OBLIQ = KIND in ('cpl_obl', 'ctl_obl', 'layered', 'dual_layered')
 if LAYERED:
     base_world = build_world('io_simple')
     cfg = {'force_spin_sync': KIND == 'layered_sync', 'type': 'layered',
@@ -174,6 +175,7 @@ SYNC = bool(cfg['force_spin_sync'])
 
 VAL = {'orbital_period': lambda k: 50.0 + 7.0 * k, 'eccentricity': lambda k: 0.05 + 0.03 * k, 'spin_period': lambda k: 10.0 + 3.0 * k, 'obliquity': lambda k: 0.1 + 0.04 * k,
        'semi_major_axis': lambda k: 3.0e10 * (1 + 0.21 * k), 'orbital_frequency': lambda k: 2 * math.pi / (86400. * (41.0 + 5.0 * k)), 'spin_frequency': lambda k: 2 * math.pi / (86400. * (9.0 + 2.0 * k)),
+       'host_spin_period': lambda k: 8.0 + 1.7 * k, 'host_obliquity': lambda k: 0.07 + 0.03 * k, 'host_temperature': lambda k: 1500.0 + 90.0 * k, 'host_fixed_q': lambda k: 60.0 + 17.0 * k,
        'time': lambda k: 100.0 + 50 * k, 'temperature': lambda k: 1450.0 + 130.0 * k, 'fixed_q': lambda k: 80.0 + 21.0 * k, 'fixed_dt': lambda k: 100.0 + 31.0 * k}
 GROUP = {'orbital_period': 'orbit_sep', 'semi_major_axis': 'orbit_sep', 'orbital_frequency': 'orbit_sep', 'spin_period': 'spin', 'spin_frequency': 'spin'}
 ORBIT_KEYS = ('eccentricity', 'semi_major_axis', 'orbital_frequency', 'orbital_period')
@@ -214,9 +216,24 @@ def wrap_models(w):
                             pass
 
 
+HOST = [None]
+
+
 def fresh_pair():
-    w = build_from_world(base_world, new_config=cfg)
-    o = PhysicsOrbit(star, tidal_host=star, tidal_bodies=w)
+    if DUAL:
+        import copy
+        hcfg = copy.deepcopy(cfg)
+        if not LAYERED:
+            hcfg['mass'] = 8.1e24
+        host = build_from_world(base_world, new_config=hcfg, new_name='tracer_host')
+        w = build_from_world(base_world, new_config=cfg, new_name='tracer_body')
+        o = PhysicsOrbit(star, tidal_host=host, tidal_bodies=w)
+        wrap_models(host)
+        HOST[0] = host
+    else:
+        w = build_from_world(base_world, new_config=cfg)
+        o = PhysicsOrbit(star, tidal_host=star, tidal_bodies=w)
+        HOST[0] = None
     wrap_models(w)
     return w, o
 
@@ -238,6 +255,15 @@ def apply_op(w, o, via, kw):
         w.mantle.set_state(temperature=kw['temperature'])
     elif via == 'layer_setter':
         w.mantle.temperature = kw['temperature']
+    elif via == 'host':
+        h = HOST[0]
+        hk = {nm[5:]: v for nm, v in kw.items() if nm in ('host_spin_period', 'host_obliquity')}
+        if hk:
+            h.set_state(**hk)
+        if 'host_temperature' in kw:
+            h.mantle.set_state(temperature=kw['host_temperature'])
+        if 'host_fixed_q' in kw:
+            h.set_fixed_q(kw['host_fixed_q'])
     elif via == 'orbit_time':
         o.time = kw['time']
     elif via == 'tides':
@@ -301,6 +327,26 @@ def observe(w, o):
     put('orbit.de_dt', lambda: o.get_eccentricity_time_derivative(w))
     put('orbit.da_dt', lambda: o.get_semi_major_axis_time_derivative(w))
     put('orbit.dn_dt', lambda: o.get_orbital_motion_time_derivative(w))
+    if DUAL:
+        h = w.tidal_host
+        put('host.tidal_heating_global', lambda: h.tidal_heating_global)
+        put('host.dUdM', lambda: h.dUdM)
+        put('host.dUdw', lambda: h.dUdw)
+        put('host.dUdO', lambda: h.dUdO)
+        put('host.spin_frequency', lambda: h.spin_frequency)
+        put('host.obliquity', lambda: h.obliquity)
+        put('host.orbital_frequency', lambda: h.orbital_frequency)
+        put('host.eccentricity', lambda: h.eccentricity)
+        put('host.tidal_susceptibility', lambda: h.tides.tidal_susceptibility)
+        put('host.tidal_terms_by_frequency', lambda: h.tides.tidal_terms_by_frequency)
+        put('host.global_love_l2', lambda: h.global_love_by_orderl[2])
+        put('host.spin_derivative', lambda: h.calc_spin_derivative())
+        put('orbit.de_dt(host)', lambda: o.get_eccentricity_time_derivative(h))
+        put('orbit.da_dt(host)', lambda: o.get_semi_major_axis_time_derivative(h))
+        put('orbit.dual_body', lambda: float(bool(o._last_calc_used_dual_body)))
+        if LAYERED:
+            put('host.mantle.tidal_heating', lambda: h.mantle.tidal_heating)
+            put('host.mantle.viscosity', lambda: h.mantle.viscosity)
     if LAYERED:
         put('mantle.tidal_heating', lambda: w.mantle.tidal_heating)
         put('mantle.viscosity', lambda: w.mantle.viscosity)
@@ -321,7 +367,7 @@ def functional(w, final):
     try:
         t = w.tides
         ct, cm, ef, inf = tbase.find_mode_manipulators(t.max_tidal_order_lvl, t.eccentricity_truncation_lvl, t.use_obliquity_tides)
-        host_m, m = star.mass, w.mass
+        host_m, m = w.tidal_host.mass, w.mass
         nm, v = final['orbit_sep']
         if nm == 'orbital_period':
             n = obase.days2rads(v)
@@ -377,6 +423,15 @@ for hist in spec['histories']:
         w.set_state(**init)
         for nm, v in init.items():
             final[GROUP.get(nm, nm)] = (nm, v)
+        if DUAL:
+            hinit = {'host_spin_period': tagged('host_spin_period', 0)}
+            if OBLIQ:
+                hinit['host_obliquity'] = tagged('host_obliquity', 0)
+            if LAYERED:
+                hinit['host_temperature'] = tagged('host_temperature', 0)
+            apply_op(w, o, 'host', hinit)
+            for nm, v in hinit.items():
+                final[nm] = (nm, v)
         for k, op in enumerate(hist, start=1):
             kw = {nm: tagged(nm, k) for nm in op['kw']}
             apply_op(w, o, op['via'], kw)
@@ -390,6 +445,8 @@ for hist in spec['histories']:
             if key in final:
                 apply_op(w2, o2, 'tides', {key: final[key][1]})
         w2.set_state(**{nm: v for g, (nm, v) in final.items() if nm in WORLD_KEYS and nm != 'time'})
+        if DUAL:
+            apply_op(w2, o2, 'host', {nm: v for g, (nm, v) in final.items() if nm.startswith('host_')})
         if 'time' in final:
             o2.time = final['time'][1]
         want = observe(w2, o2)
